@@ -40,7 +40,39 @@ def compile_time_config(it: Interp, env: Inst) -> Dict[str, Any]:
     return it.compile_time_config(env)
 
 
-def make_selector(it: Interp, model: Model, cls_qual: str, env: Inst) -> Inst:
+_CTOR_OK: Dict[Tuple[int, str], bool] = {}
+
+
+def _constructor_is_tractable(model: Model, ci: Any, env: Inst) -> bool:
+    """Pre-flight, outside the exploration in progress: interpreting the class's constructor on symbolic arguments
+    stays within a small number of paths.  A constructor that analyses the compile-time structure (walks an
+    expression tree, asks the query whether it is singular, ...) does not; its results are then treated as unknowns
+    (`computed-at-construction`) instead of being computed."""
+    from .. import harness as _h
+    from ..absctx import PathLimit
+
+    key = (id(model), ci.qualname)
+    if key in _CTOR_OK:
+        return _CTOR_OK[key]
+    _CTOR_OK[key] = False  # re-entrancy: the pre-flight itself builds selectors the simple way
+
+    def body(it2: Interp) -> Any:
+        env2 = make_env(it2, model, False)
+        return make_selector(it2, model, ci.qualname, env2, _preflight=True)
+
+    saved, _h.MONITOR = _h.MONITOR, None
+    try:
+        runs = _h.paths(model, body, limit=1024)
+        ok = True
+    except (PathLimit, Unsupported, AnalysisError):
+        ok = False
+    finally:
+        _h.MONITOR = saved
+    _CTOR_OK[key] = ok
+    return ok
+
+
+def make_selector(it: Interp, model: Model, cls_qual: str, env: Inst, _preflight: bool = False, slice_parts: Any = None) -> Inst:
     """A selector as its real constructor builds it from symbolic arguments (so attributes precomputed in
     __init__ exist and are consistent), with the rule-visible attributes being the harness's own objects, and
     with every attribute that a non-constructor method writes replaced by an unknown (state left by earlier
@@ -61,7 +93,16 @@ def make_selector(it: Interp, model: Model, cls_qual: str, env: Inst) -> Inst:
         vals["index"] = it.new_int("index")
     slv = None
     if "slice" in slots:
-        slv = SliceV(it.new_opaque("start"), it.new_opaque("stop"), it.new_opaque("step"), it.ctx.new_id())
+        if slice_parts is not None:
+            slv = SliceV(slice_parts[0], slice_parts[1], slice_parts[2], it.ctx.new_id())
+        elif _preflight:
+            # representative arguments for the tractability pre-flight: each component absent or an integer
+            def opt(label: str) -> Any:
+                return Const(None) if it.ctx.choose(("preflight-none", label), [True, False]) else it.new_int(label)
+
+            slv = SliceV(opt("start"), opt("stop"), opt("step"), it.ctx.new_id())
+        else:
+            slv = SliceV(it.new_opaque("start"), it.new_opaque("stop"), it.new_opaque("step"), it.ctx.new_id())
         vals["slice"] = slv
     s = None
     init = ci.find_method("__init__")
@@ -82,7 +123,7 @@ def make_selector(it: Interp, model: Model, cls_qual: str, env: Inst) -> Inst:
                 kwargs[p] = getattr(slv, p)
             elif p == "expression":
                 kwargs[p] = it.new_opaque("selector.expression", model.cls("filter_expressions.FilterExpression"))
-        if all(r in kwargs for r in required):
+        if all(r in kwargs for r in required) and (_preflight or _constructor_is_tractable(model, ci, env)):
             saved, _h.MONITOR = _h.MONITOR, None
             # the environment's configuration is public and mutable: what it was when the query was compiled says
             # nothing about what it is when the query is applied, so the constructor sees unrelated values
